@@ -10,7 +10,7 @@ case "$SPEC" in rev:*) ;; *) SPEC="$(realpath "$SPEC")";; esac
 NAME="$(basename "$SPEC" | tr -c 'A-Za-z0-9._\n-' '_')"
 SCRATCH="/var/tmp/fml-mut-$NAME-$$"
 rm -rf "$SCRATCH"; mkdir -p "$SCRATCH"
-cleanup() { rm -rf "$SCRATCH"; }
+cleanup() { if [ -n "${KEEP_REPLAYS:-}" ]; then mkdir -p "$KEEP_REPLAYS"; cp -r "$SCRATCH/.fmlv-work/replays/." "$KEEP_REPLAYS/" 2>/dev/null; fi; rm -rf "$SCRATCH"; }
 trap cleanup EXIT
 if [[ "$SPEC" == rev:* ]]; then
   git -C /repo archive "${SPEC#rev:}" | tar -x -C "$SCRATCH" || exit 2
